@@ -57,7 +57,7 @@ TExit ==
   /\ IsEvent("exit")
   /\ LET e == TraceLog[l]  i == Inv(e.kind, e.h, e.k) IN
        /\ Check(5, "harness: exit without enter", i \in act)
-       /\ Check(3, "C05 a later line was applied while a foreground handler ran", (e.kind = "fg") => ~e.wnext)
+       /\ Check(3, "C05 a later line was applied while a foreground handler ran", (e.kind \in {"fg", "conn"}) => ~e.wnext)
        /\ act' = act \ {i} /\ fin' = fin \cup {i}
        /\ panics' = IF e.panic THEN panics + 1 ELSE panics
   /\ UNCHANGED <<pc, cur, applied, bgPending, blocked, seen, recovered, closing, disc, discOverlap, lastLine>>
